@@ -636,6 +636,8 @@ func c09GenEp(out *emit.Out, r *rand.Rand, thorough bool) {
 			}
 			add("substituted-"+name, with(cfg, mut(c09Mut{Kind: "body", Data: hx(rb)})))
 			add("substituted-"+name, with(cfg, mut(c09Mut{Kind: "append", Val: 1 + r.IntN(40)})))
+			// the message left out altogether: the next one arrives in its place
+			add("omitted-"+name, with(cfg, append(append(append([]c09Step{}, flow[:i]...), flow[i+1:]...), app)))
 			add("retyped-"+name, with(cfg, mut(c09Mut{Kind: "type", Val: []int{0, 1, 2, 11, 12, 13, 14, 15, 16, 20, 0xEE}[r.IntN(11)]})))
 			for _, v := range []int{0, n - 1, n + 1, 65536, 65537, 0xffffff} {
 				if v >= 0 {
@@ -699,6 +701,29 @@ func c09GenEp(out *emit.Out, r *rand.Rand, thorough bool) {
 				c09Step{Op: "rec", Typ: 23, N: 20}, c09Step{Op: "raw", Data: hx(c09GarbageRecord(cfg, r)), N: 5}, c09Step{Op: "frag", Typ: 11, Total: 65536, Len: 1, N: 100, SeqInc: true, Batch: 50}, app)))
 			add("post-handshake-packed-alerts", with(cfg, done(c09Step{Op: "rec", Typ: 21, Data: "015a", N: 40, Pack: 20}, app)))
 			add("post-handshake-fragment-flood", with(cfg, done(c09Step{Op: "frag", Typ: 11, Total: 65536, Len: 1, N: 300, SeqInc: true, Batch: 50}, app)))
+		}
+	}
+	// servers under every policy that asks for a certificate: every message of the client's flight left out, an
+	// empty certificate list, a single certificate
+	for _, cfg := range c09Configs(true) {
+		if cfg.Target != "server" || !cfg.CertReq || puppet.IsECDHE(cfg.Suite) || (!thorough && puppet.IsGCM(cfg.Suite)) {
+			continue
+		}
+		for _, pol := range []int{1, 2, 3, 5} {
+			e := cfg
+			e.Policy = pol
+			flow := c09Flow(e)
+			add("policy-honest", with(e, append(append([]c09Step{}, flow...), app)))
+			for i, st := range flow {
+				if st.Op == "hs" && st.Msg != "CH" {
+					add("policy-omitted-"+st.Msg, with(e, append(append(append([]c09Step{}, flow[:i]...), flow[i+1:]...), app)))
+				}
+			}
+			for _, id := range []string{"none", "one"} {
+				x := with(e, append(append([]c09Step{}, flow...), app))
+				x.Ident = id
+				add("policy-chain-"+id, x)
+			}
 		}
 	}
 	// certificates of foreign key types, one / no certificate
